@@ -48,7 +48,10 @@ def faults_for(case):
     out += [{"fault": f} for f in ("no_method", "no_solver", "signal_objective", "nonscalar_objective",
                                    "set_value_nonparam", "set_initial_param", "set_initial_unknown",
                                    "bad_grid_constraint", "bad_grid_sample", "foreign_symbol_constraint",
-                                   "foreign_symbol_ode", "constant_false", "horizon_in_ode")]
+                                   "foreign_symbol_ode", "constant_false", "horizon_in_ode", "set_value_variable")]
+    if "fixed" in case.get("T", {}) and "fixed" in case.get("t0", {}):
+        # constraints on the (fixed) horizon symbols that are false: constant only after placeholder substitution
+        out += [{"fault": "horizon_false_T"}, {"fault": "horizon_false_tf"}, {"fault": "horizon_false_t"}]
     if kind in ("MS", "SS"):
         out += [{"fault": "alg_explicit"}, {"fault": "roots_shooting"}]
     if kind == "Spline":
@@ -71,11 +74,11 @@ def ispec_coq(case, f):
         b(rule), b(val), meth, "false" if fl == "no_solver" else "true",
         b([True] * nobj + ([False] if fl == "signal_objective" else [])),
         b([True] * nobj + ([False] if fl == "nonscalar_objective" else [])),
-        b([False] if fl == "set_value_nonparam" else []),
+        b([False] if fl in ("set_value_nonparam", "set_value_variable") else []),
         b([False] if fl in ("set_initial_param", "set_initial_unknown") else []),
         b([True] + ([False] if fl in ("bad_grid_constraint", "bad_grid_sample") else [])),
         b([True] + ([False] if fl in ("foreign_symbol_constraint", "foreign_symbol_ode") else [])),
-        b([True] + ([False] if fl == "constant_false" else [])),
+        b([True] + ([False] if fl in ("constant_false", "horizon_false_T", "horizon_false_tf", "horizon_false_t") else [])),
         nalg, "true" if kind in ("MS", "SS") else "false",
         "false" if fl == "horizon_in_ode" else "true",
         1 if fl == "roots_shooting" else 0,
@@ -190,6 +193,15 @@ def build_with_fault(c, rockit, f):
         ocp.subject_to(x0 + ca.MX.sym("alien") <= 100)
     elif fl == "constant_false":
         ocp.subject_to(ca.MX(2) <= ca.MX(1))
+    elif fl == "set_value_variable":
+        v_ = B.objs["v"][0] if B.objs["v"] else ocp.variable()
+        ocp.set_value(v_, 1)
+    elif fl == "horizon_false_T":
+        ocp.subject_to(ocp.T >= float(Fr(c["T"]["fixed"])) + 4)
+    elif fl == "horizon_false_tf":
+        ocp.subject_to(ocp.tf <= float(Fr(c["t0"]["fixed"])) - 1)
+    elif fl == "horizon_false_t":
+        ocp.subject_to(ocp.at_tf(ocp.t) <= float(Fr(c["t0"]["fixed"])) - 1)
     return B
 
 
@@ -237,8 +249,8 @@ def run(tier="quick", seed=0, jobs=16):
             "rule": "for each method in {MS, SS, DC, SplineMethod}: generated well-posed OCPs, each alone (must reach the "
                     "solver without raising) and with every applicable single fault of the catalogue at every position "
                     "(missing set_der/set_next per state, missing value per parameter, no method, no solver, signal / "
-                    "non-scalar objective, set_value on a non-parameter, set_initial on a parameter / unknown symbol, unknown "
-                    "grid in subject_to / sample, foreign symbol, constant-false constraint, horizon symbol in the ODE, "
+                    "non-scalar objective, set_value on a non-parameter or on a variable, set_initial on a parameter / unknown symbol, unknown "
+                    "grid in subject_to / sample, foreign symbol, constant-false constraint (literal, or false only after the fixed horizon is substituted), horizon symbol in the ODE, "
                     "algebraic equation with an explicit scheme, integrator_roots constraint under shooting, nonlinear / "
                     "time-varying dynamics under SplineMethod): rockit raises iff Mech/Illposed.accepts is false, and "
                     "casadi.Opti.solve is never reached for a rejected specification.  distinct by hash of (case, fault)",
